@@ -12,8 +12,8 @@ Import ListNotations.
 Section Formulas.
   Local Open Scope R_scope.
   Definition rsum (l : list R) : R := fold_right Rplus 0 l.                     (* np.sum *)
-  Definition vmul (a b : list R) : list R := map (fun q => fst q * snd q) (combine a b).   (* a * b *)
-  Definition vscale (c : R) (a : list R) : list R := map (fun v => c * v) a.    (* c * a *)
+  Definition rmul (a b : list R) : list R := map (fun q => fst q * snd q) (combine a b).   (* a * b *)
+  Definition rscale (c : R) (a : list R) : list R := map (fun v => c * v) a.    (* c * a *)
 
   (* PNorm:  np.sum(np.abs(x) ** self.p) ** (1/self.p) *)
   Definition pnorm (p : R) (x : list R) : R :=
@@ -21,7 +21,7 @@ Section Formulas.
 
   (* KSFunction:  1/self.rho * np.log(np.sum(np.exp(self.rho * x))) *)
   Definition ks (rho : R) (x : list R) : R :=
-    1 / rho * ln (rsum (map exp (vscale rho x))).
+    1 / rho * ln (rsum (map exp (rscale rho x))).
 
   (* scipy.special.softmax(z) = exp(z) / sum(exp(z))  (the library subtracts max(z) first for range
      reasons; the real function is the same) *)
@@ -29,7 +29,7 @@ Section Formulas.
 
   (* SoftMinMax:  np.sum(x * spsp.softmax(self.alpha * x)) *)
   Definition softminmax (alpha : R) (x : list R) : R :=
-    rsum (vmul x (softmax (vscale alpha x))).
+    rsum (rmul x (softmax (rscale alpha x))).
 End Formulas.
 
 (* ---- AggScaling and Aggregation._response, generic over the number type *)
@@ -72,3 +72,28 @@ Section Scaling.
     | xs :: r => let q := response agg ext damp sf xs in fst q :: response_run agg ext damp (snd q) r
     end.
 End Scaling.
+
+(* ---- evaluation instance for the correspondence check (Q; floats are converted exactly) *)
+From Coq Require Import QArith PrimFloat.
+From Pymoto Require Import Base.PyFloat.
+
+(* np.max / np.min over Q *)
+Definition qext (is_max : bool) (l : list Q) : Q :=
+  match l with
+  | [] => 0%Q
+  | h :: t => fold_left (fun m v => if is_max then (if Qle_bool m v then v else m) else (if Qle_bool v m then v else m)) t h
+  end.
+
+(* exact rational value of a binary64 number *)
+Definition f2q (f : float) : Q := let q := float_to_Zpair f in Qred (Qmake (fst q) (Z.to_pos (snd q))).
+
+(* a history of response() calls in which the value of aggregation_function at step k is supplied
+   (observed from the implementation and validated separately against the R formulas by `interval`):
+   hist = [(x[select]_k, xagg_k)] *)
+Fixpoint response_run_obs (is_max : bool) (damp : option Q) (sf : option Q) (hist : list (list Q * Q)) : list Q :=
+  match hist with
+  | [] => []
+  | (xs, a) :: r =>
+      let q := response (fun _ => a) (qext is_max) damp sf xs in
+      fst q :: response_run_obs is_max damp (snd q) r
+  end.
